@@ -375,8 +375,71 @@ func batchTrip(run *vk.Run, r *rand.Rand, kind, scratch string) {
 			}
 		}
 	}
+	// the same messages as an older producer wrote them — under a legacy type name — reach the
+	// materializer through an upcasting replay (an unwrapping upcaster registered on a bus that was
+	// first told to forget the upcasters of a type it never had)
+	st2, err := stores.Open(kind, scratch)
+	if err != nil {
+		panic(err)
+	}
+	defer func() { st2.Close(); st2.Remove() }()
+	old := ebu.New(ebu.WithStore(st2.Store))
+	want2 := map[string]Entity{}
+	for i := 0; i < n; i++ {
+		e := genEntity(r)
+		key := fmt.Sprintf("k%d", i%7)
+		msg, err := state.Insert(key, e)
+		if err != nil {
+			run.Violation("statemsg:constructor-error", err.Error(), nil)
+			return
+		}
+		want2[key] = e
+		ebu.Publish(old, legacyChange(*msg))
+	}
+	bus2 := ebu.New(ebu.WithStore(st2.Store))
+	bus2.ClearUpcastsForType("c19.never-registered")
+	if err := ebu.RegisterUpcastFunc(bus2, "c19.legacy-change.v0", "state.ChangeMessage", func(d json.RawMessage) (json.RawMessage, string, error) {
+		var env struct {
+			Legacy json.RawMessage `json:"legacy"`
+		}
+		if err := json.Unmarshal(d, &env); err != nil || len(env.Legacy) == 0 {
+			return nil, "", fmt.Errorf("not a legacy envelope: %v", err)
+		}
+		return env.Legacy, "state.ChangeMessage", nil
+	}); err != nil {
+		panic(err)
+	}
+	mat2 := state.NewMaterializer(state.WithStrictSchema())
+	coll2 := state.NewTypedCollection[Entity](state.NewMemoryStore[Entity]())
+	state.RegisterCollection(mat2, coll2)
+	if err := bus2.ReplayWithUpcast(context.Background(), ebu.OffsetOldest, mat2.Apply); err != nil {
+		run.Violation("statemsg:legacy-replay-error", fmt.Sprintf("[%s] upcasting replay of %d legacy-named change messages into a materializer failed: %v", kind, n, err), map[string]any{"store": kind})
+		return
+	}
+	for key, e := range want2 {
+		got, ok := coll2.Get(key)
+		x, _ := json.Marshal(&e)
+		y, _ := json.Marshal(&got)
+		if !ok || !jgen.JSONEqual(x, y) {
+			run.Violation("statemsg:legacy-materialized-entity", fmt.Sprintf("[%s] %d change messages stored under a legacy type name and replayed through an upcaster into a materializer: key %q holds %s (present=%v), want %s", kind, n, key, y, ok, x), map[string]any{"store": kind, "key": key})
+			return
+		}
+	}
 	run.Case(fmt.Sprintf("batch|%s|n%d", kind, n/5), true)
-	run.Count("batch_messages_replayed", int64(n))
+	run.Count("batch_messages_replayed", int64(2*n))
+}
+
+// legacyChange is a change message as an older producer published it: the same document inside an
+// envelope, under an older type name.
+type legacyChange state.ChangeMessage
+
+func (legacyChange) EventTypeName() string { return "c19.legacy-change.v0" }
+func (l legacyChange) MarshalJSON() ([]byte, error) {
+	inner, err := json.Marshal(state.ChangeMessage(l))
+	if err != nil {
+		return nil, err
+	}
+	return json.Marshal(map[string]json.RawMessage{"legacy": inner})
 }
 
 func TestC19RoundTrip(t *testing.T) {
@@ -451,6 +514,11 @@ func (t *target) snapshot() string {
 
 // applyChecked: Apply never panics; on error nothing changed.
 func applyChecked(t *target, data []byte, off string) (msg string, failed bool) {
+	defer func() {
+		if r := recover(); r != nil {
+			msg, failed = fmt.Sprintf("reading the collections / LastOffset around Apply panicked: %v", r), true
+		}
+	}()
 	before := t.snapshot()
 	var err error
 	func() {
@@ -550,7 +618,11 @@ func TestC19Bytes(t *testing.T) {
 		if i%50 == 0 {
 			// fresh targets with some state in them
 			tg = [2]*target{newTarget(false), newTarget(true)}
-			for j, m := range seedMessages(r)[:2] {
+			seedState := seedMessages(r)[:2]
+			if (i/50)%3 == 2 {
+				seedState = nil // every third block: materializers that have not applied anything yet
+			}
+			for j, m := range seedState {
 				tg[0].mat.Apply(&ebu.StoredEvent{Offset: ebu.Offset(fmt.Sprint("s", j)), Type: "state.ChangeMessage", Data: m})
 				tg[1].mat.Apply(&ebu.StoredEvent{Offset: ebu.Offset(fmt.Sprint("s", j)), Type: "state.ChangeMessage", Data: m})
 			}
@@ -616,7 +688,11 @@ func FuzzApply(f *testing.F) {
 	f.Fuzz(func(t *testing.T, data []byte, strict bool) {
 		tt := newTarget(strict)
 		rr := rand.New(rand.NewPCG(7, 7))
-		for j, m := range seedMessages(rr)[:2] {
+		seedState := seedMessages(rr)[:2]
+		if len(data)%3 == 0 {
+			seedState = nil // a materializer that has not applied anything yet
+		}
+		for j, m := range seedState {
 			tt.mat.Apply(&ebu.StoredEvent{Offset: ebu.Offset(fmt.Sprint("s", j)), Type: "state.ChangeMessage", Data: m})
 		}
 		if msg, _ := applyChecked(tt, data, "fz"); msg != "" {
